@@ -8,6 +8,8 @@ CONSTANTS
   NoOpnSnapshot = FALSE
   Kinds = {"bit", "roaring", "rowop", "large"}
   KeyChunks = 2
+  CutClasses = {"inkey", "between", "afterid", "aftersize"}
+  UnrecognisedCuts = {}
   TornTailFails = TRUE
   RoaringTwoWrites = TRUE
   RowOpAsync = TRUE
